@@ -177,6 +177,27 @@ func init() {
 			"\t\t\t\t\t\t\t// increment the object count\n\t\t\t\t\t\t\tcount++\n\t\t\t\t\t\t\tif count == maxids {\n\t\t\t\t\t\t\t\tnextid = o.ID()\n\t\t\t\t\t\t\t\tidsdone = false\n\t\t\t\t\t\t\t\treturn false\n\t\t\t\t\t\t\t}\n\t\t\t\t\t\t\treturn true\n"}},
 		Expect: "R9.resume-cursor", Key: "cursor/nextid", Why: "the element that fills a batch is emitted and then used as the inclusive resume point: written twice"})
 
+	// ---- R12 ---------------------------------------------------------------
+	mutant(&Mutant{Name: "glob-no-escape-stop", Props: []string{"C12"}, File: "internal/glob/glob.go",
+		Old: "\t\tcase '[', '*', '?', '\\\\':\n\t\t\t// An escape", New: "\t\tcase '[', '*', '?':\n\t\t\t// An escape",
+		Expect: "R12.stop-set", Key: "stop-byte", Why: "reverse of the escape fix"})
+	mutant(&Mutant{Name: "glob-empty-prefix-limits", Props: []string{"C12"}, File: "internal/glob/glob.go",
+		Old: "\t\tg.IsGlob = isGlob\n\t\treturn g\n\t}\n\tvar a, b string", New: "\t\tg.Limits = []string{pattern, pattern}\n\t\tg.IsGlob = isGlob\n\t\treturn g\n\t}\n\tvar a, b string",
+		Expect: "R12.empty-prefix-unbounded", Key: "limits-when-prefix-empty", Why: "reverse of the leading-operator fix"})
+	mutant(&Mutant{Name: "search-count-all-objects", Props: []string{"C12", "C19"}, File: "internal/server/search.go",
+		Old: "count := sw.col.StringCount() - int(sargs.cursor)", New: "count := sw.col.Count() - int(sargs.cursor)",
+		Expect: "R12.count-shortcut", Key: "cmdSearch→counter-matches-index", Why: "reverse of the SEARCH COUNT fix (counter)"})
+	mutant(&Mutant{Name: "scan-count-ignores-wherein", Props: []string{"C12", "C19"}, File: "internal/server/scan.go",
+		Old: "\t\tif sw.output == outputCount && len(sw.wheres) == 0 &&\n\t\t\tlen(sw.whereins) == 0 && len(sw.whereevals) == 0 &&", New: "\t\tif sw.output == outputCount && len(sw.wheres) == 0 &&\n\t\t\tlen(sw.whereevals) == 0 &&",
+		Expect: "R12.count-shortcut", Key: "cmdScan→guard-covers-filters", Why: "SCAN COUNT with WHEREIN returns the unfiltered count"})
+	mutant(&Mutant{Name: "keys-range-no-match", Props: []string{"C12"}, File: "internal/server/keys.go",
+		Old: "\t\t\t\tif key > g.Limits[1] {\n\t\t\t\t\treturn false\n\t\t\t\t}\n\t\t\t\tmatch, _ := glob.Match(pattern, key)\n\t\t\t\tif match {\n\t\t\t\t\tkeys = append(keys, key)\n\t\t\t\t}",
+		New: "\t\t\t\tif key > g.Limits[1] {\n\t\t\t\t\treturn false\n\t\t\t\t}\n\t\t\t\tkeys = append(keys, key)",
+		Expect: "R12.range-then-match", Key: "cmdKEYS→s.cols.Ascend", Why: "KEYS ab*c returns everything with prefix ab"})
+	mutant(&Mutant{Name: "where-extra-operator", Props: []string{"C12"}, File: "internal/server/token.go",
+		Old: "\t\t\t\t\tcase \"<\", \"<=\", \">\", \">=\", \"==\", \"!=\":\n\t\t\t\t\tdefault:", New: "\t\t\t\t\tcase \"<\", \"<=\", \">\", \">=\", \"==\", \"!=\", \"<>\":\n\t\t\t\t\tdefault:",
+		Expect: "R12.where-operators", Key: "accepted/<>", Why: "an operator the matcher does not know"})
+
 	// ---- neutral variants --------------------------------------------------
 	mutant(&Mutant{Name: "neutral-rename-write-flag", Props: []string{"C03", "C07", "C15"}, Neutral: true, File: fScripts,
 		Old: "func (s *Server) luaTile38NonAtomic(msg *Message) (resp.Value, error) {\n\tvar write bool\n", New: "func (s *Server) luaTile38NonAtomic(msg *Message) (resp.Value, error) {\n\tvar write bool\n\t_ = \"neutral\"\n",
